@@ -20,6 +20,7 @@ def run(tier):
     rep.rule('R18.e.2', 'after any fault, a topology Reset leaves every field of the record fresh or provably dead (the entry record is arbitrary, so every post-fault state is covered)', floor=8)
     rep.rule('R18.e.3', 'after such a Reset nothing transmitted and no decision depends on pre-Reset (post-fault) state: behaviour equals a freshly started responder', floor=20)
     rep.rule('R18.d', 'constructors: an allocation failure yields NULL (or a usable automaton without its optional block), never a dereference, never a leak', floor=6)
+    rep.rule('R18.g', 'the observation list stays well formed on every fault path: no store into the link field of an observation already in the list (an out-of-memory fallback that recycles a node must unlink it first)', floor=100)
     rep.rule('R18.f', 'diagnostics on fault paths: every printf-like call has a literal format whose conversions match its arguments', floor=40)
     res = safety.run_all(kinds=['frame.mtu', 'frame.fallback', 'ctors', 'api', 'automata'] + ['tick:%d:%d' % (m, e) for m in range(3) for e in range(3)])
     for entry, r in sorted(res.items()):
@@ -36,6 +37,10 @@ def run(tier):
         for h in res[entry]['heap']:
             if h['faults']:
                 nfault += 1
+            rep.check(not h.get('link_stores'), 'R18.g', '%s|link-rewritten' % entry,
+                      'handling a frame (ToS %s, opcode %s; allocations may fail on this path) stores into the link field of an observation that is already in the list '
+                      '(offset/size %s): the list is corrupted (a node cut off, a cycle, or a released node still linked) and the next Query or Reset walks it'
+                      % (h['tos'], h['op'], h.get('link_stores')), file='lltdResponder/lltdBlock.c', function='parseFrame')
             rep.check(not h['leaked'], 'R18.b', '%s|leak|%s' % (entry, ','.join(h['leaked'])),
                       'handling a frame (ToS %s, opcode %s, %d failed allocation(s)) returns with %s still allocated and not retained'
                       % (h['tos'], h['op'], h['faults'], h['leaked']), file='lltdResponder/lltdBlock.c', function='parseFrame',
